@@ -566,6 +566,7 @@ func init() {
 			"states = executions; every schedule is run on the real code, so traces_validated_against_impl = executions",
 		},
 		Parallel:       true,
+		Procs:          1,
 		QuickBudget:    4 * time.Minute,
 		ThoroughBudget: 25 * time.Minute,
 		Run:            c15Run,
